@@ -98,6 +98,16 @@ func (g *Gateway) Execute(ctx *RequestContext, plans QueryPlanList) (map[string]
 	// now that we have our response, throw it through the list of middlewarse
 	for _, ware := range g.responseMiddlewares {
 		if err := ware(executionContext, result); err != nil {
+			// the request is aborted with this error. The failures the execution had already reported are
+			// failures all the same: they stay in the list (the middleware that trips over a partial response
+			// would otherwise hide the errors of the services that explain it)
+			if executeErr != nil {
+				var executeErrs graphql.ErrorList
+				if errors.As(executeErr, &executeErrs) {
+					return nil, append(append(graphql.ErrorList{}, executeErrs...), err)
+				}
+				return nil, graphql.ErrorList{executeErr, err}
+			}
 			return nil, err
 		}
 	}
